@@ -12,6 +12,7 @@
 package main
 
 import (
+	"context"
 	"encoding/json"
 	"flag"
 	"fmt"
@@ -25,6 +26,8 @@ import (
 
 	"github.com/AliceO2Group/Control/common/event/topic"
 	evpb "github.com/AliceO2Group/Control/common/protos"
+	pb "github.com/AliceO2Group/Control/core/protos"
+	"github.com/spf13/viper"
 	"github.com/AliceO2Group/Control/core/the"
 	mesos "github.com/mesos/mesos-go/api/v1/lib"
 
@@ -64,6 +67,11 @@ type Input struct {
 	Tasks  []c0203.Task `json:"tasks"`
 	Groups []int        `json:"groups"` // 0: directly below the root; g>0: inside aggregator role "g<g>"
 	Early  *Fault       `json:"early,omitempty"`
+	// Claimed: the tasks are not launched for this environment but claimed from an earlier one
+	// (reuseUnlockedTasks=true: environment A deploys them, is RESET and destroyed keeping its tasks,
+	// the environment of the case claims them); every message of such a task (status labels, device
+	// event labels) still names environment A, as the real executor stamps them at launch
+	Claimed bool `json:"claimed,omitempty"`
 	Ops    []Op         `json:"ops"`
 }
 
@@ -77,6 +85,7 @@ type StepObs struct {
 	Tasks    [][2]int `json:"tasks"`
 	Victims  []int    `json:"victims"` // computed by the harness: tasks the fault of this step hits
 	IsFault  bool     `json:"is_fault"`
+	Claims   int      `json:"claims,omitempty"` // first step: tasks of this environment that were claimed
 	Raced    bool     `json:"raced,omitempty"` // race: the first update was held at the hand-over
 	ErrText  string   `json:"err_text,omitempty"` // not compared
 }
@@ -239,6 +248,41 @@ func (g *roleGate) WriteEventWithTimestamp(e interface{}, _ time.Time) { g.Write
 func (g *roleGate) Close()                                             {}
 
 var gate = &roleGate{}
+
+// ---------------------------------------------------------------- acting between the cleanup and the deployment of a creation
+
+// envTap wraps the environment-topic writer of c0203: CreateEnvironment publishes "workflow loaded"
+// (step after_CREATE) after its pre-deployment cleanup (which kills every unlocked task) and before
+// DEPLOY.  When armed, the callback runs inside that write - the only window in which tasks released
+// by another environment are still there to be claimed (reuseUnlockedTasks).
+type envTap struct {
+	inner interface {
+		WriteEvent(e interface{})
+		WriteEventWithTimestamp(e interface{}, t time.Time)
+		Close()
+	}
+	mu sync.Mutex
+	f  func()
+}
+
+func (t *envTap) arm(f func()) { t.mu.Lock(); t.f = f; t.mu.Unlock() }
+
+func (t *envTap) WriteEvent(e interface{}) {
+	t.inner.WriteEvent(e)
+	if ev, ok := e.(*evpb.Ev_EnvironmentEvent); ok && ev.Transition == "CREATE" && ev.TransitionStep == "after_CREATE" {
+		t.mu.Lock()
+		f := t.f
+		t.f = nil
+		t.mu.Unlock()
+		if f != nil {
+			f()
+		}
+	}
+}
+func (t *envTap) WriteEventWithTimestamp(e interface{}, ts time.Time) { t.inner.WriteEventWithTimestamp(e, ts) }
+func (t *envTap) Close()                                              {}
+
+var tap *envTap
 
 // ---------------------------------------------------------------- running one case
 
@@ -703,7 +747,58 @@ func runCase(w *c0203.World, idx int, in Input) (obs []StepObs, wedged bool) {
 			c.settleFault(f, earlyVs)
 		})
 	}
+	oldIds := map[string]bool{}
+	if in.Claimed {
+		// environment A: same tasks, deployed, configured, RESET (tasks STANDBY), destroyed keeping them
+		envA, crA := w.Create(name+"a", in.Tasks, nil, nil, nil, "1500ms", 4*time.Second)
+		if crA.Err != nil || crA.Hang || envA.E == nil {
+			return nil, n > 0
+		}
+		envA.SetOutcomes(c0203.ParseOutcomes(nil, n))
+		envA.Control("RESET", 3*time.Second)
+		waitFor(3*time.Second, func() bool {
+			k := 0
+			for _, t := range w.Sim.Taskman.VerifRoster() {
+				if t.EnvId == envA.Id.String() && t.State == "STANDBY" {
+					k++
+				}
+			}
+			return k == n
+		})
+		for _, tid := range envA.TaskIds {
+			oldIds[tid] = true
+		}
+		// A is destroyed (keeping its tasks) between the pre-deployment cleanup and the DEPLOY of the
+		// creation below: its tasks are unlocked, ACTIVE and STANDBY when acquireTasks looks for them
+		tap.arm(func() {
+			done := make(chan struct{})
+			go func() {
+				defer close(done)
+				_, _ = w.Sim.Rpc.DestroyEnvironment(context.Background(), &pb.DestroyEnvironmentRequest{Id: envA.Id.String(), KeepTasks: true})
+			}()
+			select {
+			case <-done:
+			case <-time.After(5 * time.Second):
+			}
+			waitFor(3*time.Second, func() bool {
+				k := 0
+				for _, t := range w.Sim.Taskman.VerifRoster() {
+					if oldIds[t.TaskId] && !t.Locked && t.Claimable {
+						k++
+					}
+				}
+				return k == n
+			})
+			envA.Finish(false)
+			if os.Getenv("H03_DEBUG") != "" {
+				fmt.Fprintf(os.Stderr, "claimed case %d: roster after A: %+v\n", idx, w.Sim.Taskman.VerifRoster())
+			}
+		})
+		viper.Set("reuseUnlockedTasks", true)
+	}
 	env, cr := w.Create(name, in.Tasks, nil, nil, calls, "1500ms", 4*time.Second)
+	viper.Set("reuseUnlockedTasks", false)
+	tap.arm(nil)
 	w.OnProbe(earlyId, nil)
 	c.env = env
 	first := StepObs{Hang: cr.Hang, Victims: earlyVs, IsFault: in.Early != nil}
@@ -731,6 +826,14 @@ func runCase(w *c0203.World, idx int, in Input) (obs []StepObs, wedged bool) {
 	}
 	for _, i := range earlyVs {
 		want0[i] = 4
+	}
+	for _, tid := range env.TaskIds {
+		if oldIds[tid] {
+			first.Claims++
+		}
+	}
+	if in.Claimed && os.Getenv("H03_DEBUG") != "" {
+		fmt.Fprintf(os.Stderr, "claimed case %d: B ids %v old %v accepts %d roster %+v\n", idx, env.TaskIds, oldIds, env.Accepts(), w.Sim.Taskman.VerifRoster())
 	}
 	c.observe(&first, want0)
 	obs = append(obs, first)
@@ -1096,6 +1199,10 @@ func genCase(r *gen.Rand) (Input, string) {
 			}
 		}
 	}
+	if r.Chance(1, 5) {
+		kind += "-claimed"
+		in.Claimed = true
+	}
 	g := &genState{r: r, in: &in, alive: make([]bool, n), state: "CONFIGURED"}
 	for i := range g.alive {
 		g.alive[i] = true
@@ -1253,6 +1360,18 @@ func corpus() []job {
 	add("corpus-label-noncritical", Input{Tasks: []c0203.Task{t(true, "direct", 1), t(false, "fairmq", 2), t(false, "basic", 3)},
 		Ops: []Op{{Kind: "cmd", Ev: "START", Oc: acks(3)}, {Kind: "fault", F: lab("lost", 1, Label{Path: "reconnect"}), Oc: acks(3)},
 			{Kind: "fault", F: lab("failed", 2, Label{Reason: "reconciliation", Src: "master", NoUUID: true}), Oc: acks(3)}, {Kind: "cmd", Ev: "STOP", Oc: acks(3)}}})
+	// claimed tasks: every message of the task names the environment that launched it, the failure must
+	// reach the environment that owns it now (seeded change C03-5: handleDeviceEvent looks the environment
+	// up by the label of the device event)
+	add("corpus-claimed-internal-configured-critical", Input{Tasks: two, Claimed: true, Ops: []Op{{Kind: "fault", F: &Fault{Kind: "internal", V: 0}, Oc: a2}}})
+	add("corpus-claimed-internal-running-critical", Input{Tasks: two, Claimed: true, Ops: []Op{{Kind: "cmd", Ev: "START", Oc: a2}, {Kind: "fault", F: &Fault{Kind: "internal", V: 0}, Oc: a2}}})
+	add("corpus-claimed-internal-running-noncritical", Input{Tasks: two, Claimed: true, Ops: []Op{{Kind: "cmd", Ev: "START", Oc: a2}, {Kind: "fault", F: &Fault{Kind: "internal", V: 1}, Oc: a2}, {Kind: "cmd", Ev: "STOP", Oc: a2}}})
+	add("corpus-claimed-lost-running-critical", Input{Tasks: two, Claimed: true, Ops: []Op{{Kind: "cmd", Ev: "START", Oc: a2}, {Kind: "fault", F: &Fault{Kind: "lost", V: 0}, Oc: a2}}})
+	add("corpus-claimed-reconnect-configured-critical", Input{Tasks: two, Claimed: true, Ops: []Op{{Kind: "fault", F: lab("failed", 0, Label{Path: "reconnect"}), Oc: a2}}})
+	add("corpus-claimed-executor-running-critical", Input{Tasks: two, Claimed: true, Ops: []Op{{Kind: "cmd", Ev: "START", Oc: a2}, {Kind: "fault", F: &Fault{Kind: "executor", V: 0}, Oc: a2}}})
+	add("corpus-claimed-agent-nested", Input{Tasks: []c0203.Task{t(true, "direct", 1), t(true, "fairmq", 2), t(false, "basic", 2)}, Groups: []int{1, 1, 0}, Claimed: true,
+		Ops: []Op{{Kind: "cmd", Ev: "START", Oc: acks(3)}, {Kind: "fault", F: &Fault{Kind: "agent", V: 2}, Oc: acks(3)}}})
+	add("corpus-claimed-early-internal-critical", Input{Tasks: two, Claimed: true, Early: &Fault{Kind: "internal", V: 0}})
 	return js
 }
 
@@ -1286,6 +1405,8 @@ func childMain(inFile, outFile string, wid int) {
 		os.Exit(2)
 	}
 	the.VerifC02SetEventWriter(topic.Role, gate)
+	tap = &envTap{inner: w.EventCapture()}
+	the.VerifC02SetEventWriter(topic.Environment, tap)
 	f, err := os.Create(outFile)
 	if err != nil {
 		fmt.Fprintln(os.Stderr, err)
@@ -1436,6 +1557,12 @@ func main() {
 		if !ok {
 			lost++
 			obs = []StepObs{}
+		}
+		if j.In.Claimed {
+			labels["world=claimed-tasks"]++
+			if ok && len(obs) > 0 && obs[0].Claims == len(j.In.Tasks) {
+				labels["world=claimed-tasks,all-claimed"]++
+			}
 		}
 		if j.In.Early != nil {
 			faultKinds[j.In.Early.Kind]++
